@@ -63,9 +63,15 @@ def anc (g : Graph) (a b : Nat) : Bool :=
 
 def children (g : Graph) (i : Nat) : List Nat := (g.filter (·.parents.contains i)).map (·.id)
 
-/-- ids without children, ascending (the committed head set is sorted by id) -/
+/-- `HeadSet::push` on command ids (`storage/head_set.rs`): binary-search insert that keeps the
+set sorted and is a no-op when the id is already present -/
+def hsPush : List Nat → Nat → List Nat
+  | [], x => [x]
+  | y :: ys, x => if x < y then x :: y :: ys else if x = y then y :: ys else y :: hsPush ys x
+
+/-- ids without children, pushed into a head set: ascending and duplicate-free (the committed
+head set is sorted by id) -/
 def frontier (g : Graph) : List Nat :=
-  let tips := (g.filter (fun c => (children g c.id).isEmpty)).map (·.id)
-  tips.mergeSort (· ≤ ·)
+  ((g.filter (fun c => (children g c.id).isEmpty)).map (·.id)).foldl hsPush []
 
 end AranyaV.Spec
